@@ -34,6 +34,8 @@ def check(run):
     s, fq = inc.s, inc.fq
     E = check_guard_and_counter(inc, "COUNT", "pfi")
     tracker_operator(run, prog, cls, "SAME", "pfi.operator")
+    from .explcore import defaults_resolution
+    defaults_resolution(run, prog, cls, "SAME", "defaults")
 
     from .c06 import depends_on
     depends_on(run, "C10")
